@@ -20,9 +20,16 @@ on the wire, and `Aead.dec k n a c` succeeds exactly when `c` is the wire form o
 of the table — nothing else decrypts. The wire bytes are chosen by the environment (in the
 correspondence run: by the real AES-CCM).
 
-Only UDP peers are modelled (`adjust_reliability` is the identity on them); freed exchange slots
-(`None` entries) are not modelled; the receiver has no group key material (fabric table empty).
-Import-free apart from the generated constants and `Model/Dedup` so that the driver links.
+Peers are UDP, TCP or BTP addresses (`Address::canonical`, `is_reliable`, `adjust_reliability`).
+Group receive (`Sessions::get_or_create_for_group_rx`) is modelled with its key-derivation loop
+(fabrics × key map × epoch keys; operational key and group session id are *symbolic*: `opKey` is an
+injective pairing of epoch key and compressed fabric id, the 16-bit group session id is the
+environment function `gsid`), the per-sender counter store (`Dedup.GStore`), the creation of the
+ephemeral group session incl. LRU eviction (`get_session_for_eviction`, `last_use` kept in a list
+parallel to the session table). `handle_rx_packet`'s reactions to every outcome of `decode_packet`
+(stand-alone ACK for a duplicate, Busy + eviction, CloseSession, SessionNotFound, removal of a
+session on a received CloseSession) are `handleRx`. Freed exchange slots (`None` entries) are not
+modelled. Import-free apart from the generated constants and `Model/Dedup` so that the driver links.
 -/
 namespace SecureMsg
 
@@ -41,7 +48,7 @@ def leVal : Bytes → Nat
 /-- `ErrorCode`s that can leave `decode_packet` -/
 inductive Err
   | Invalid | TruncatedPacket | InvalidData | NoSession | Duplicate | NoExchange | NoSpaceExchanges
-  | NoSpaceSessions | BufferTooSmall | InvalidState
+  | NoSpaceSessions | BufferTooSmall | InvalidState | InvalidSignature
 deriving Repr, DecidableEq, Inhabited
 
 def Err.name : Err → String
@@ -49,10 +56,40 @@ def Err.name : Err → String
   | .NoSession => "NoSession" | .Duplicate => "Duplicate" | .NoExchange => "NoExchange"
   | .NoSpaceExchanges => "NoSpaceExchanges" | .NoSpaceSessions => "NoSpaceSessions"
   | .BufferTooSmall => "BufferTooSmall" | .InvalidState => "InvalidState"
+  | .InvalidSignature => "InvalidSignature"
 
 /-- `ParseBuf::le_uN`: `n` bytes from the front or `TruncatedPacket` -/
 def takeLe (n : Nat) (bs : Bytes) : Except Err (Nat × Bytes) :=
   if n ≤ bs.length then .ok (leVal (bs.take n), bs.drop n) else .error .TruncatedPacket
+
+/-! ## Peer addresses (`transport/network.rs` `Address`) -/
+
+inductive Ip
+  | v4 (n : Nat)
+  | v6 (n : Nat)
+deriving Repr, DecidableEq, Inhabited
+
+inductive Addr
+  | udp (ip : Ip) (port : Nat)
+  | tcp (ip : Ip) (port : Nat)
+  | btp (a : Nat)
+deriving Repr, DecidableEq, Inhabited
+
+/-- `Ipv6Addr::to_canonical`: `::ffff:a.b.c.d` is the IPv4 address `a.b.c.d` -/
+def Ip.canonical : Ip → Ip
+  | .v6 n => if n / 4294967296 = 65535 then .v4 (n % 4294967296) else .v6 n
+  | .v4 n => .v4 n
+
+/-- `Address::canonical` -/
+def Addr.canonical : Addr → Addr
+  | .udp ip p => .udp ip.canonical p
+  | .tcp ip p => .tcp ip.canonical p
+  | .btp a => .btp a
+
+/-- `Address::is_reliable` -/
+def Addr.isReliable : Addr → Bool
+  | .udp _ _ => false
+  | _ => true
 
 /-! ## Plain (unencrypted) header -/
 
@@ -171,6 +208,28 @@ def ProtoHdr.isControlMsg (p : ProtoHdr) : Bool :=
   p.protoId == Consts.protoIdSecureChannel
     && (p.opcode == Consts.opMsgCounterSyncReq || p.opcode == Consts.opMsgCounterSyncResp)
 
+/-- `flags.remove(m)` on a `u8` -/
+def clearBits (f m : Nat) : Nat := f &&& (255 ^^^ m)
+
+/-- `ProtoHdr::adjust_reliability`: over a reliable transport the R and A flags are lowered -/
+def ProtoHdr.adjustReliability (p : ProtoHdr) (a : Addr) : ProtoHdr :=
+  if a.isReliable then { p with exchFlags := clearBits (clearBits p.exchFlags X_RELIABLE) X_ACK, ack := 0 }
+  else p
+
+def ProtoHdr.toggleInitiator (p : ProtoHdr) : ProtoHdr :=
+  if p.isInitiator then { p with exchFlags := clearBits p.exchFlags X_INITIATOR }
+  else { p with exchFlags := p.exchFlags ||| X_INITIATOR }
+
+def ProtoHdr.setAck (p : ProtoHdr) (c : Nat) : ProtoHdr := { p with exchFlags := p.exchFlags ||| X_ACK, ack := c }
+def ProtoHdr.clearAck (p : ProtoHdr) : ProtoHdr := { p with exchFlags := clearBits p.exchFlags X_ACK, ack := 0 }
+def ProtoHdr.unsetReliable (p : ProtoHdr) : ProtoHdr := { p with exchFlags := clearBits p.exchFlags X_RELIABLE }
+
+/-- `MessageMeta::set_into` -/
+def ProtoHdr.setMeta (p : ProtoHdr) (protoId opcode : Nat) (reliable : Bool) : ProtoHdr :=
+  let f := clearBits p.exchFlags X_VENDOR
+  { p with protoId := protoId, opcode := opcode, vendor := 0,
+           exchFlags := if reliable then f ||| X_RELIABLE else clearBits f X_RELIABLE }
+
 structure PacketHdr where
   plain : PlainHdr := {}
   proto : ProtoHdr := {}
@@ -204,7 +263,9 @@ def TAG_LEN : Nat := Consts.aeadTagLen
 /-! ## Sessions -/
 
 inductive Mode
-  | plain | pase | case | group (gid : Nat)
+  | plain | pase | case
+  /-- `SessionMode::Group { fab_idx, group_id }` -/
+  | group (fab gid : Nat)
 deriving Repr, DecidableEq, Inhabited
 
 structure Exch where
@@ -218,7 +279,7 @@ structure Exch where
 deriving Repr, DecidableEq, Inhabited
 
 structure Session where
-  addr : Nat
+  addr : Addr
   localNode : Nat := 0
   peerNode : Option Nat := none
   decKey : Nat := 0
@@ -234,16 +295,16 @@ structure Session where
 deriving Repr, DecidableEq, Inhabited
 
 def Session.isEncrypted (s : Session) : Bool := s.mode != .plain
-def Session.isGroup (s : Session) : Bool := match s.mode with | .group _ => true | _ => false
+def Session.isGroup (s : Session) : Bool := match s.mode with | .group _ _ => true | _ => false
 def Session.getDecKey (s : Session) : Option Nat := if s.isEncrypted then some s.decKey else none
 def Session.getEncKey (s : Session) : Option Nat := if s.isEncrypted then some s.encKey else none
 
-/-- `Session::is_for_rx` -/
-def Session.isForRx (s : Session) (from_ : Nat) (h : PlainHdr) : Bool :=
+/-- `Session::is_for_rx` (addresses are compared canonically) -/
+def Session.isForRx (s : Session) (from_ : Addr) (h : PlainHdr) : Bool :=
   let nodeidMatches := s.peerNode.isNone || h.srcNode.isNone || s.peerNode == h.srcNode
   let destMatches := s.isEncrypted || s.localNode == 0 || h.dstUnicast.isNone
       || h.dstUnicast == some s.localNode
-  nodeidMatches && destMatches && s.localSid == h.sessId && s.addr == from_
+  nodeidMatches && destMatches && s.localSid == h.sessId && s.addr.canonical == from_.canonical
     && s.isEncrypted == h.isEncrypted && !s.reserved
 
 /-! ## Sender side -/
@@ -272,7 +333,7 @@ def Session.preSend (s : Session) (h : PacketHdr) : Except Err (PacketHdr × Ses
     if isGroup then
       { pl with secFlags := (pl.secFlags ||| S_GROUP ||| S_CONTROL) }   -- is_control holds here
     else pl
-  .ok ({ h with plain := pl }, { s with txCtr := s.txCtr + 1 })
+  .ok ({ plain := pl, proto := h.proto.adjustReliability s.addr }, { s with txCtr := (s.txCtr + 1) % 4294967296 })
 
 /-- `Session::encode` = `PacketHdr::encode(enc_key, local_nodeid)`: the wire datagram and, when the
 session has a key, the `Enc` term. `ct` = the wire bytes of cipher text ‖ tag. -/
@@ -285,65 +346,159 @@ def Session.encode (s : Session) (h : PacketHdr) (payload ct : Bytes) : Bytes ×
       some { key := k, nonce := nonce h.plain.secFlags h.plain.ctr s.localNode, aad := plainBytes, pt, ct })
   | none => (plainBytes ++ pt, none)
 
+/-! ## Group key material (`fabric.rs` `Groups`, `group_keys.rs`) -/
+
+structure KeySetM where
+  id : Nat
+  epochKeys : List Nat
+deriving Repr, DecidableEq, Inhabited
+
+structure FabricM where
+  fabIdx : Nat
+  nodeId : Nat
+  /-- compressed fabric id -/
+  cfid : Nat
+  /-- `key_map`: (group id, group key set id) in table order -/
+  keyMap : List (Nat × Nat) := []
+  keySets : List KeySetM := []
+deriving Repr, DecidableEq, Inhabited
+
+/-- Operational group key `KeySet::update` = HKDF(epoch key, salt = compressed fabric id):
+symbolic — an injective pairing of its two inputs (epoch keys are 128-bit); odd, so that it never
+equals a directly installed key (those are even numbers in the correspondence runs). -/
+def opKey (epoch cfid : Nat) : Nat := 2 * (cfid * 340282366920938463463374607431768211456 + epoch) + 1
+
+/-- what the receiver knows beyond its session table: the encryptions made so far (ideal AEAD),
+its fabrics with their group keys, and the 16-bit group session id of an operational key
+(`derive_group_session_id`, a hash — not injective) -/
+structure Env where
+  t : Aead := []
+  fabs : List FabricM := []
+  gsid : Nat → Nat := fun _ => 0
+
+/-- one candidate of the key-derivation loop: a key whose group session id is the header's -/
+structure Cand where
+  fabIdx : Nat
+  /-- the fabric's node id (becomes the local node id of the group session) -/
+  nodeId : Nat
+  gid : Nat
+  key : Nat
+deriving Repr, DecidableEq, Inhabited
+
+/-- multicast: only the mappings of the target group; unicast (MCSP): every mapping -/
+def skipMap (h : PlainHdr) (m : Nat × Nat) : Bool :=
+  match h.dstGroup with | some gid => m.1 != gid | none => false
+
+/-- unicast-addressed: only the fabrics in which this node has the destination node id -/
+def skipFabric (h : PlainHdr) (f : FabricM) : Bool :=
+  match h.dstUnicast with | some d => f.nodeId != d | none => false
+
+/-- the epoch keys of one key-map entry that are tried -/
+def candsOfMap (gsid : Nat → Nat) (f : FabricM) (h : PlainHdr) (m : Nat × Nat) : List Cand :=
+  if skipMap h m then [] else
+  match f.keySets.find? (fun ks => ks.id == m.2) with
+  | none => []
+  | some ks =>
+    ks.epochKeys.filterMap fun e =>
+      let k := opKey e f.cfid
+      if gsid k == h.sessId then
+        some { fabIdx := f.fabIdx, nodeId := f.nodeId, gid := h.dstGroup.getD m.1, key := k }
+      else none
+
+def candsOfFabric (gsid : Nat → Nat) (h : PlainHdr) (f : FabricM) : List Cand :=
+  if skipFabric h f then [] else
+  f.keyMap.flatMap (candsOfMap gsid f h)
+
+/-- the loop `for fabric { for map_entry { for epoch_key {..} } }` of `get_or_create_for_group_rx`,
+in its order, restricted to the keys that are actually tried (`key_attempted`) -/
+def candidates (E : Env) (h : PlainHdr) : List Cand := E.fabs.flatMap (candsOfFabric E.gsid h)
+
 /-! ## Receiver side -/
 
 abbrev Node := List Session
 
 /-- `Sessions::get_for_rx`: first session that `is_for_rx` -/
-def findRx (n : Node) (from_ : Nat) (h : PlainHdr) : Option Nat :=
+def findRx (n : Node) (from_ : Addr) (h : PlainHdr) : Option Nat :=
   n.findIdx? (fun s => s.isForRx from_ h)
 
-/-- what `decode_packet` establishes before any state is touched -/
+/-- what `decode_packet` establishes before any state (beyond `last_use`) is touched; every
+alternative carries the headers as they are left in the packet -/
 inductive Stage
-  | rej (e : Err)
+  | rej (e : Err) (h : PacketHdr)
   /-- decoded for the existing session `idx` -/
   | decoded (idx : Nat) (h : PacketHdr) (payload : Bytes)
   /-- unencrypted, no session: a new unsecured session is to be created -/
   | newPlain (h : PacketHdr) (payload : Bytes)
+  /-- group message, no session: authenticated under the candidate key `c` -/
+  | groupNew (c : Cand) (h : PacketHdr) (payload : Bytes)
 deriving Repr, DecidableEq, Inhabited
 
-/-- `Session::decode_remaining` (UDP peer): decrypt under the session's receive key with nonce
-`sec flags ‖ counter ‖ peer node id (or 0)` and AAD = the parsed plain-header bytes, then parse the
-protocol header. `aad` are the parsed bytes, `rest` everything behind them. -/
+def Stage.hdr : Stage → PacketHdr
+  | .rej _ h => h | .decoded _ h _ => h | .newPlain h _ => h | .groupNew _ h _ => h
+
+/-- `PacketHdr::decode_remaining(dec_key, node id)` + `adjust_reliability(peer)`: decrypt under `key`
+(if any) with nonce `sec flags ‖ counter ‖ node id` and AAD = the parsed plain-header bytes, then
+parse the protocol header. `aad` are the parsed bytes, `rest` everything behind them. -/
+def decodeRemaining (t : Aead) (key : Option Nat) (node : Nat) (a : Addr) (h : PlainHdr)
+    (aad rest : Bytes) : Except Err (ProtoHdr × Bytes) :=
+  match key with
+  | some k =>
+    match t.dec k (nonce h.secFlags h.ctr node) aad rest with
+    | some pt => (ProtoHdr.decode pt).map fun (p, pay) => (p.adjustReliability a, pay)
+    | none => .error .InvalidData
+  | none => (ProtoHdr.decode rest).map fun (p, pay) => (p.adjustReliability a, pay)
+
+/-- `Session::decode_remaining` -/
 def Session.decodeRemaining (t : Aead) (s : Session) (h : PlainHdr) (aad rest : Bytes) :
     Except Err (ProtoHdr × Bytes) :=
-  match s.getDecKey with
-  | some k =>
-    match t.dec k (nonce h.secFlags h.ctr (s.peerNode.getD 0)) aad rest with
-    | some pt => ProtoHdr.decode pt
-    | none => .error .InvalidData
-  | none => ProtoHdr.decode rest
+  SecureMsg.decodeRemaining t s.getDecKey (s.peerNode.getD 0) s.addr h aad rest
 
 def MAX_GROUP_SAVE : Nat := 1280
 
-/-- the part of `decode_packet` that runs before `post_recv` -/
-def decodeStage (t : Aead) (n : Node) (from_ : Nat) (dg : Bytes) : Stage :=
+/-- `try_group_decrypt` for one candidate: `Some` only if the message decrypts *and* parses -/
+def tryGroup (t : Aead) (from_ : Addr) (h : PlainHdr) (src : Nat) (aad rest : Bytes) (c : Cand) :
+    Option (Cand × ProtoHdr × Bytes) :=
+  match SecureMsg.decodeRemaining t (some c.key) src from_ h aad rest with
+  | .ok (p, pay) => some (c, p, pay)
+  | .error _ => none
+
+/-- `Sessions::get_or_create_for_group_rx` up to and including authentication -/
+def groupStage (E : Env) (from_ : Addr) (h : PlainHdr) (aad rest : Bytes) : Stage :=
+  match h.srcNode with
+  | none => .rej .InvalidData { plain := h }
+  | some src =>
+    if h.dstGroup.isNone && h.dstUnicast.isNone then .rej .InvalidData { plain := h }
+    else if rest.length > MAX_GROUP_SAVE then .rej .BufferTooSmall { plain := h }
+    else
+      let cands := candidates E h
+      match cands.findSome? (tryGroup E.t from_ h src aad rest) with
+      | some (c, p, pay) => .groupNew c { plain := h, proto := p } pay
+      | none =>
+        if cands.isEmpty then .rej .NoSession { plain := h } else .rej .InvalidSignature { plain := h }
+
+/-- the part of `decode_packet` that runs before `post_recv` / the counter store -/
+def decodeStage (E : Env) (n : Node) (from_ : Addr) (dg : Bytes) : Stage :=
   match PlainHdr.decode dg with
-  | .error e => .rej e
+  | .error e => .rej e {}
   | .ok (h, rest) =>
     let aad := dg.take (dg.length - rest.length)
     match findRx n from_ h with
     | some idx =>
       match n[idx]? with
-      | none => .rej .NoSession   -- unreachable
+      | none => .rej .NoSession { plain := h }   -- unreachable
       | some s =>
-        match s.decodeRemaining t h aad rest with
-        | .error e => .rej e
+        match s.decodeRemaining E.t h aad rest with
+        | .error e => .rej e { plain := h }
         | .ok (p, payload) => .decoded idx { plain := h, proto := p } payload
     | none =>
       if !h.isEncrypted then
-        match ProtoHdr.decode rest with
-        | .error e => .rej e
+        match SecureMsg.decodeRemaining E.t none 0 from_ h aad rest with
+        | .error e => .rej e { plain := h }
         | .ok (p, payload) =>
           if p.isNewSession then .newPlain { plain := h, proto := p } payload
-          else .rej .NoSession
-      else if h.isGroup then
-        -- `get_or_create_for_group_rx` on a node without group keys
-        if h.srcNode.isNone then .rej .InvalidData
-        else if h.dstGroup.isNone && h.dstUnicast.isNone then .rej .InvalidData
-        else if rest.length > MAX_GROUP_SAVE then .rej .BufferTooSmall
-        else .rej .NoSession
-      else .rej .NoSession
+          else .rej .NoSession { plain := h, proto := p }
+      else if h.isGroup then groupStage E from_ h aad rest
+      else .rej .NoSession { plain := h }
 
 /-- `ReliableMessage::post_recv` on one exchange -/
 def Exch.postRecv (e : Exch) (ctr : Nat) (p : ProtoHdr) : Except Err Exch :=
@@ -383,6 +538,49 @@ def Session.postRecv (s : Session) (h : PacketHdr) : Except Err Bool × Session 
 
 def MAX_SESSIONS : Nat := Consts.maxSessions
 
+/-- the receiving node: session table, `last_use` of every session (same order), group counter store -/
+structure World where
+  node : Node := []
+  lru : List Nat := []
+  gstore : Dedup.GStore := Dedup.GStore.empty
+deriving Repr, DecidableEq, Inhabited
+
+/-- `Vec::swap_remove` -/
+def swapRemove {α : Type} (l : List α) (i : Nat) : List α :=
+  match l.getLast? with
+  | none => l
+  | some last => if i + 1 = l.length then l.dropLast else (l.set i last).dropLast
+
+/-- `Sessions::remove` -/
+def World.remove (w : World) (i : Nat) : World :=
+  { w with node := swapRemove w.node i, lru := swapRemove w.lru i }
+
+/-- `Sessions::add` -/
+def World.add (w : World) (now : Nat) (s : Session) : Option World :=
+  if w.node.length < MAX_SESSIONS then some { w with node := w.node ++ [s], lru := w.lru ++ [now] }
+  else none
+
+/-- the scan of `Sessions::get_session_for_eviction` from position `i` on -/
+def evictScan : List (Session × Nat) → Nat → Option Nat → Nat → Option Nat
+  | [], _, best, _ => best
+  | (s, lu) :: rest, i, best, ts =>
+    if (s.expired || decide (lu < ts)) && !s.reserved && s.exchs.isEmpty then
+      if s.expired then some i else evictScan rest (i + 1) (some i) lu
+    else evictScan rest (i + 1) best ts
+
+/-- `Sessions::get_session_for_eviction`: an expired session, else the least recently used one,
+among the unreserved sessions without exchanges -/
+def World.evictIdx (w : World) (now : Nat) : Option Nat := evictScan (w.node.zip w.lru) 0 none now
+
+/-- `get_for_rx` refreshes `last_use` of the session it finds — before anything is authenticated -/
+def World.touch (w : World) (now : Nat) (from_ : Addr) (dg : Bytes) : World :=
+  match PlainHdr.decode dg with
+  | .error _ => w
+  | .ok (h, _) =>
+    match findRx w.node from_ h with
+    | some i => { w with lru := w.lru.set i now }
+    | none => w
+
 /-- what is handed on -/
 inductive Outcome
   | err (e : Err)
@@ -390,28 +588,231 @@ inductive Outcome
   | ok (idx : Nat) (newExch : Bool) (h : PacketHdr) (payload : Bytes)
 deriving Repr, DecidableEq, Inhabited
 
+/-- the ephemeral group session created for an authenticated group message -/
+def groupSession (from_ : Addr) (c : Cand) (h : PlainHdr) : Session :=
+  { addr := from_, localNode := c.nodeId, peerNode := h.srcNode, decKey := c.key, encKey := c.key,
+    localSid := h.sessId, peerSid := h.sessId, mode := .group c.fabIdx c.gid }
+
+/-- the per-sender counter store is consulted for data messages only (control messages are trust-first) -/
+def World.groupCtr (w : World) (c : Cand) (h : PlainHdr) : World × Bool :=
+  if h.isControl then (w, true)
+  else
+    let r := w.gstore.postRecv c.fabIdx (h.srcNode.getD 0) h.ctr
+    ({ w with gstore := r.1 }, r.2)
+
+/-- `Sessions::add`, evicting the least recently used idle session when the table is full -/
+def World.makeRoom (w : World) (now : Nat) (s : Session) : Option World :=
+  match w.add now s with
+  | some w' => some w'
+  | none =>
+    match w.evictIdx now with
+    | some i => (w.remove i).add now s
+    | none => none
+
+/-- `post_recv` on the session that was just appended to the table -/
+def World.deliverLast (w : World) (s : Session) (h : PacketHdr) (payload : Bytes) : Outcome × World :=
+  let idx := w.node.length - 1
+  let r := s.postRecv h
+  (match r.1 with
+   | .error e => Outcome.err e
+   | .ok nw => Outcome.ok idx nw h payload,
+   { w with node := w.node.set idx r.2 })
+
+/-- the second half of `get_or_create_for_group_rx` + `post_recv`: counter store (data messages
+only), then the session (evicting the LRU one when the table is full) -/
+def World.groupAccept (w : World) (now : Nat) (from_ : Addr) (c : Cand) (h : PacketHdr)
+    (payload : Bytes) : Outcome × World :=
+  let r := w.groupCtr c h.plain
+  if !r.2 then (.err .Duplicate, r.1) else
+  match r.1.makeRoom now (groupSession from_ c h.plain) with
+  | none => (.err .NoSpaceSessions, r.1)
+  | some w' => w'.deliverLast (groupSession from_ c h.plain) h payload
+
+/-- the destination group of a group data message differs from the group of the session it was matched to -/
+def otherGroup (h : PlainHdr) (gid : Nat) : Bool :=
+  match h.dstGroup with | some g => g != gid | none => false
+
+/-- A group *data* message that was matched to an existing (ephemeral) group session passes the
+checks of the creating path: it addresses the session's group and its counter is new to the
+per-sender group counter store (`decode_packet`, fixed code). -/
+def World.groupDataCheck (w : World) (s : Session) (h : PlainHdr) : Option Err × World :=
+  if h.isGroup && !h.isControl then
+    match s.mode with
+    | .group fab gid =>
+      if otherGroup h gid then (some .NoSession, w)
+      else
+        let r := w.gstore.postRecv fab (s.peerNode.getD 0) h.ctr
+        (if r.2 then none else some .Duplicate, { w with gstore := r.1 })
+    | _ => (none, w)
+  else (none, w)
+
+/-- `post_recv` on the session `idx` -/
+def World.deliverAt (w : World) (idx : Nat) (s : Session) (h : PacketHdr) (payload : Bytes) : Outcome × World :=
+  let r := s.postRecv h
+  (match r.1 with
+   | .error e => Outcome.err e
+   | .ok nw => Outcome.ok idx nw h payload,
+   { w with node := w.node.set idx r.2 })
+
 /-- `decode_packet` -/
-def receive (t : Aead) (n : Node) (from_ : Nat) (dg : Bytes) : Outcome × Node :=
-  match decodeStage t n from_ dg with
-  | .rej e => (.err e, n)
+def receive (E : Env) (now : Nat) (w0 : World) (from_ : Addr) (dg : Bytes) : Outcome × World :=
+  let w := w0.touch now from_ dg
+  match decodeStage E w.node from_ dg with
+  | .rej e _ => (.err e, w)
   | .decoded idx h payload =>
-    match n[idx]? with
-    | none => (.err .NoSession, n)
+    match w.node[idx]? with
+    | none => (.err .NoSession, w)
     | some s =>
-      let (r, s') := s.postRecv h
-      let n' := n.set idx s'
-      match r with
-      | .error e => (.err e, n')
-      | .ok nw => (.ok idx nw h payload, n')
+      let c := w.groupDataCheck s h.plain
+      match c.1 with
+      | some e => (.err e, c.2)
+      | none => c.2.deliverAt idx s h payload
   | .newPlain h payload =>
-    if n.length < MAX_SESSIONS then
-      let s : Session := { addr := from_, peerNode := h.plain.srcNode }
-      let (r, s') := s.postRecv h
-      let n' := n ++ [s']
-      match r with
-      | .error e => (.err e, n')
-      | .ok nw => (.ok n.length nw h payload, n')
-    else (.err .NoSpaceSessions, n)
+    match w.add now { addr := from_, peerNode := h.plain.srcNode } with
+    | some w' => w'.deliverLast { addr := from_, peerNode := h.plain.srcNode } h payload
+    | none => (.err .NoSpaceSessions, w)
+  | .groupNew c h payload => w.groupAccept now from_ c h payload
+
+/-! ## `handle_rx_packet`: the reactions to the outcome of `decode_packet` -/
+
+/-- one datagram sent in reaction -/
+structure Reply where
+  to : Addr
+  /-- the key it is secured with (`none`: unsecured) and the node id in its nonce -/
+  key : Option Nat
+  srcNode : Nat
+  hdr : PacketHdr
+  payload : Bytes
+  /-- the table index of the session it was written on (`none`: written without a session) -/
+  via : Option Nat := none
+deriving Repr, DecidableEq, Inhabited
+
+structure HRes where
+  /-- `Ok(true)`: the message is left in place for a responder -/
+  deliver : Bool := false
+  replies : List Reply := []
+  /-- `handle_rx_packet` itself ended with an error (logged, packet dropped) -/
+  failed : Option Err := none
+deriving Repr, DecidableEq, Inhabited
+
+def SC_CLOSE_SESSION : Nat := Consts.scCloseSession
+def SC_BUSY : Nat := Consts.scBusy
+def SC_SESSION_NOT_FOUND : Nat := Consts.scSessionNotFound
+def GC_SUCCESS : Nat := 0
+def GC_FAILURE : Nat := 1
+def GC_BUSY : Nat := 8
+def GC_MAX : Nat := 16
+
+/-- `StatusReport::write` for a secure-channel status -/
+def statusReport (general code : Nat) (data : Bytes) : Bytes :=
+  le 2 general ++ le 4 Consts.protoIdSecureChannel ++ le 2 code ++ data
+
+/-- `TransportRunner::is_close_session` (a status report whose general code is no `GeneralCode` does not parse) -/
+def isCloseSession (payload : Bytes) : Bool :=
+  match takeLe 2 payload with
+  | .error _ => false
+  | .ok (g, r1) =>
+    if g > GC_MAX then false else
+    match takeLe 4 r1 with
+    | .error _ => false
+    | .ok (pid, r2) =>
+      match takeLe 2 r2 with
+      | .error _ => false
+      | .ok (code, _) => pid == Consts.protoIdSecureChannel && code == SC_CLOSE_SESSION
+
+/-- `write_packet(packet, Some(session), None, ..)`: the plain header is reset, `pre_send` stamps it -/
+def writeOnSession (s : Session) (p : ProtoHdr) (payload : Bytes) : Except Err (Reply × Session) :=
+  match s.preSend { plain := {}, proto := p } with
+  | .error e => .error e
+  | .ok (h, s') => .ok ({ to := s.addr, key := s.getEncKey, srcNode := s.localNode, hdr := h, payload }, s')
+
+/-- `write_packet(packet, None, None, ..)`: only for an unencrypted, source-tagged, unreliable header -/
+def writeUnsecured (from_ : Addr) (h : PacketHdr) (payload : Bytes) : Except Err Reply :=
+  if h.plain.isEncrypted || h.plain.srcNode.isNone || h.proto.isReliable then .error .NoSession else
+  let plain : PlainHdr := { flags := F_DSIZ_UNICAST, sessId := 0, ctr := 1, dst := h.plain.src }
+  let proto := ({ h.proto with exchFlags := clearBits h.proto.exchFlags X_INITIATOR }).adjustReliability from_
+  .ok { to := from_, key := none, srcNode := 0, hdr := { plain, proto }, payload }
+
+/-- `write_evict_some_session_packet`: evict the LRU idle session and tell its peer.
+`exchId`: the fresh exchange id drawn from the allocator (environment). -/
+def World.evictSome (w : World) (now exchId : Nat) (p : ProtoHdr) : HRes × World :=
+  match w.evictIdx now with
+  | none => ({}, w)
+  | some i =>
+    match w.node[i]? with
+    | none => ({}, w)
+    | some s =>
+      let p := ({ p with exchId := exchId, exchFlags := p.exchFlags ||| X_INITIATOR }).setMeta
+        Consts.protoIdSecureChannel Consts.opStatusReport false
+      let w' := w.remove i
+      match writeOnSession s p (statusReport GC_SUCCESS SC_CLOSE_SESSION []) with
+      | .error e => ({ failed := some e }, w')
+      | .ok (r, _) => ({ replies := [{ r with via := some i }] }, w')
+
+/-- the `match result { .. }` of `handle_rx_packet`; `h` = the headers `decode_packet` left in the
+packet, `w` = the node after `decode_packet` -/
+def react (now exchId : Nat) (from_ : Addr) (h : PacketHdr) (o : Outcome) (w : World) : HRes × World :=
+  match o with
+  | .err .Duplicate =>
+    if h.plain.isGroup then ({}, w)
+    else if !from_.isReliable && !h.proto.isStandaloneAck then
+      match findRx w.node from_ h.plain with
+      | none => ({ failed := some .NoSession }, w)   -- `unwrap!`: unreachable
+      | some i =>
+        match w.node[i]? with
+        | none => ({ failed := some .NoSession }, w)
+        | some s =>
+          let p := ((h.proto.toggleInitiator).setAck h.plain.ctr).setMeta
+            Consts.protoIdSecureChannel Consts.opMrpStandaloneAck false
+          match writeOnSession s p [] with
+          | .error e => ({ failed := some e }, w)
+          | .ok (r, s') => ({ replies := [{ r with via := some i }] }, { w with node := w.node.set i s', lru := w.lru.set i now })
+    else ({}, w)
+  | .err .NoSpaceSessions =>
+    if !h.plain.isEncrypted && h.proto.isNewSession then
+      let p := ((h.proto.toggleInitiator).setAck h.plain.ctr).setMeta
+        Consts.protoIdSecureChannel Consts.opStatusReport false
+      match writeUnsecured from_ { h with proto := p } (statusReport GC_BUSY SC_BUSY [0xF4, 0x01]) with
+      | .error e => ({ failed := some e }, w)
+      | .ok r =>
+        let (res, w') := w.evictSome now exchId r.hdr.proto
+        ({ res with replies := r :: res.replies }, w')
+    else ({}, w)
+  | .err .NoSpaceExchanges =>
+    match findRx w.node from_ h.plain with
+    | none => ({ failed := some .NoSession }, w)   -- `unwrap!`: unreachable
+    | some i =>
+      match w.node[i]? with
+      | none => ({ failed := some .NoSession }, w)
+      | some s =>
+        let p := ({ h.proto with exchId := exchId, exchFlags := h.proto.exchFlags ||| X_INITIATOR }).setMeta
+          Consts.protoIdSecureChannel Consts.opStatusReport false
+        let w' := w.remove i
+        match writeOnSession s p (statusReport GC_SUCCESS SC_CLOSE_SESSION []) with
+        | .error e => ({ failed := some e }, w')
+        | .ok (r, _) => ({ replies := [{ r with via := some i }] }, w')
+  | .err .NoSession =>
+    if !h.plain.isEncrypted then ({}, w)
+    else
+      let pl := { h.plain with sessId := 0, flags := h.plain.flags ||| F_SRC, src := 0 }
+      let p := ((h.proto.unsetReliable).clearAck).setMeta Consts.protoIdSecureChannel Consts.opStatusReport false
+      match writeUnsecured from_ { plain := pl, proto := p } (statusReport GC_FAILURE SC_SESSION_NOT_FOUND []) with
+      | .error e => ({ failed := some e }, w)
+      | .ok r => ({ replies := [r] }, w)
+  | .err _ => ({}, w)
+  | .ok _ _ hh payload =>
+    if hh.proto.isStandaloneAck then ({}, w)
+    else if hh.proto.isScStatus && isCloseSession payload then
+      match findRx w.node from_ hh.plain with
+      | some i => ({}, w.remove i)
+      | none => ({}, w)
+    else ({ deliver := true }, w)
+
+/-- one step of the receive loop `process_rx`: `handle_rx_packet` -/
+def handleRx (E : Env) (now exchId : Nat) (w : World) (from_ : Addr) (dg : Bytes) : HRes × World :=
+  let h := (decodeStage E (w.touch now from_ dg).node from_ dg).hdr
+  let (o, w') := receive E now w from_ dg
+  react now exchId from_ h o w'
 
 /-! ## Specification vocabulary (written from the property text) -/
 
@@ -429,6 +830,42 @@ def authenticForB (t : Aead) (r : Session) (dg : Bytes) : Bool :=
     rec.key == r.decKey && dg == rec.aad ++ rec.ct &&
     match PlainHdr.decode rec.aad with
     | .ok (h, []) => h.encode == rec.aad && rec.nonce == nonce h.secFlags h.ctr (r.peerNode.getD 0)
+    | _ => false
+
+/-- the group keys a node holds for a group message with header `h` (written from the property
+text, not from the loop): operational keys derived from an epoch key of a key set that is mapped,
+in fabric `f`, to the addressed group (for a unicast-addressed group control message: of the fabric
+in which this node has the addressed node id, any mapped key set) -/
+def GroupKeyFor (fabs : List FabricM) (h : PlainHdr) (f : FabricM) (gid key : Nat) : Prop :=
+  f ∈ fabs ∧ ∃ ksid, (gid, ksid) ∈ f.keyMap ∧ ∃ ks ∈ f.keySets, ks.id = ksid ∧ ∃ e ∈ ks.epochKeys,
+    key = opKey e f.cfid ∧
+    (∀ g, h.dstGroup = some g → gid = g) ∧ (∀ d, h.dstUnicast = some d → f.nodeId = d)
+
+/-- `dg` is an authentic group message under `key`: bit for bit the wire form of an encryption
+under `key` with the complete header as associated data and the *source node id of the header* in
+the nonce -/
+def GroupAuthentic (t : Aead) (key : Nat) (dg : Bytes) (h : PlainHdr) (src : Nat) : Prop :=
+  h.srcNode = some src ∧ h.isGroup = true ∧
+  ∃ rec ∈ t, rec.key = key ∧ rec.aad = h.encode ∧ dg = rec.aad ++ rec.ct ∧
+    rec.nonce = nonce h.secFlags h.ctr src
+
+/-- executable form used by the driver's oracle: is `dg` an authentic group message under one of the
+keys the node holds for the addressed group (any fabric)? Independent of the loop: quantifies over
+all fabrics, mappings, key sets and epoch keys. -/
+def groupAuthenticB (E : Env) (dg : Bytes) : Bool :=
+  E.t.any fun rec =>
+    dg == rec.aad ++ rec.ct &&
+    match PlainHdr.decode rec.aad with
+    | .ok (h, []) =>
+      h.encode == rec.aad && h.isGroup &&
+      (match h.srcNode with
+       | some src => rec.nonce == nonce h.secFlags h.ctr src
+       | none => false) &&
+      E.fabs.any fun f =>
+        (match h.dstUnicast with | some d => f.nodeId == d | none => true) &&
+        f.keyMap.any fun m =>
+          (match h.dstGroup with | some g => m.1 == g | none => true) &&
+          f.keySets.any fun ks => ks.id == m.2 && ks.epochKeys.any fun e => opKey e f.cfid == rec.key
     | _ => false
 
 end SecureMsg
